@@ -872,6 +872,7 @@ class Reaction:
         If value is positive, the atom is being created. If negative, the atom 
         is being destroyed."""
         stoichiometry_by_mol = self._get_stoichiometry_by_mol()
+        if self.phases: stoichiometry_by_mol = stoichiometry_by_mol.sum(0)
         formula_array = self.chemicals.formula_array
         unbalanced_array = formula_array @ stoichiometry_by_mol
         return elements.array_to_atoms(unbalanced_array)
